@@ -426,12 +426,18 @@ func (vc *VC) storeBase(ptr ssa.Value) (string, bool) {
 		if _, isField := p.X.(*ssa.FieldAddr); isField {
 			return vc.storeBase(p.X)
 		}
+		if _, isAlloc := p.X.(*ssa.Alloc); isAlloc {
+			return "", false
+		}
 		return vc.val(p.X), true
 	case *ssa.IndexAddr:
 		switch p.X.Type().Underlying().(type) {
 		case *types.Slice:
 			return fmt.Sprintf("(sl_arr %s)", vc.val(p.X)), true
 		case *types.Pointer:
+			if _, isAlloc := p.X.(*ssa.Alloc); isAlloc {
+				return "", false
+			}
 			return vc.val(p.X), true
 		}
 	case *ssa.Alloc:
